@@ -58,6 +58,11 @@ def gen_files(rng, syms, d0):
             c = round(rng.uniform(5, 300), rng.choice([2, 3, 6])) if rng.random() > 0.12 else None
             a = round((c or 50.0) * rng.choice([1, 1, 0.9, 0.5]), 6) if rng.random() > 0.12 else None
             rows.append([(d0 + dtm.timedelta(days=k)).isoformat(), o, c, a])
+        if rows and rng.random() < 0.25:
+            # a calendar that starts before the listing: leading rows whose price cells are all empty
+            first = dtm.date.fromisoformat(min(r[0] for r in rows))
+            for k in range(1, rng.randint(2, 6)):
+                rows.append([(first - dtm.timedelta(days=k)).isoformat(), None, None, None])
         if rng.random() < 0.6:
             rng.shuffle(rows)
         files[s] = rows
